@@ -16,7 +16,7 @@ CONSTANTS
   Seed = 1
   NWide = 6000
   CheckFixed = TRUE
-  CexScale = 12
+  CexScale = 4
 INIT Init
 NEXT Next
 INVARIANT Inv
